@@ -8,5 +8,6 @@ CONSTANTS
   UnicodeDigits = FALSE
   NoRollback = FALSE
   StaleKey = FALSE
+  CopySharesParts = FALSE
 SPECIFICATION TSpec
 CHECK_DEADLOCK FALSE
